@@ -176,6 +176,9 @@ func (r *run) playRandom(g *vc.Rng, profile string) {
 		if r.enabled(r.rx) {
 			acts = append(acts, act{kind: "step", actor: r.rx}, act{kind: "step", actor: r.rx}, act{kind: "step", actor: r.rx})
 		}
+		if r.earlyOwner() != nil {
+			acts = append(acts, act{kind: "early"}, act{kind: "early"}, act{kind: "early"})
+		}
 		var open []*callState // latest id seen by the server, not yet answered
 		var openT []int
 		var written []*callState // any call with at least one frame on the wire
@@ -220,7 +223,7 @@ func (r *run) playRandom(g *vc.Rng, profile string) {
 		}
 		onlyOptional := true
 		for _, a := range acts {
-			if a.kind == "call" || a.kind == "step" || a.kind == "srv" {
+			if a.kind == "call" || a.kind == "step" || a.kind == "srv" || a.kind == "early" {
 				onlyOptional = false
 			}
 		}
@@ -239,6 +242,12 @@ func (r *run) playRandom(g *vc.Rng, profile string) {
 			ntok++
 			r.slog(fmt.Sprintf("call %d %s %s %d", a.t, sp.kind, b01(sp.hinted), sp.token))
 			r.doCall(a.t, sp)
+		case "early":
+			r.slog("early rx")
+			r.doEarly()
+			if r.aborted {
+				return
+			}
 		case "step":
 			show := a.actor
 			if a.actor == r.rx {
